@@ -1,29 +1,37 @@
 #!/bin/bash
-# tools/seedmatrix.sh [tier]  — run every registered check against every confirmed seeded change (quick tier by
-# default) and write seeded/matrix.json + seeded/MATRIX.md. /repo is restored after each seed.
+# tools/seedmatrix.sh [tier] [glob]  — run every registered check against every confirmed seeded change (quick tier by
+# default; optional shell glob over seed names, e.g. '*r4', in which case the rows are merged into the existing
+# matrix) and write seeded/matrix.json + seeded/MATRIX.md. /repo is restored after each seed.
 cd "$(dirname "$0")/.."
-tier="${1:-quick}"
+tier="${1:-quick}"; pat="${2:-*}"
 ids=$(python3 -c "import json;print(' '.join(c['property_id'] for c in json.load(open('MANIFEST.json'))['checks']))")
 out=/tmp/seedmatrix.$$.txt; : > $out
-for d in seeded/*/; do
+# SEEDMATRIX_RAW=<file>: only rebuild the tables from the raw result lines of an earlier run
+[ -n "$SEEDMATRIX_RAW" ] && cp "$SEEDMATRIX_RAW" $out
+for d in seeded/$pat/; do
+  [ -n "$SEEDMATRIX_RAW" ] && break
   name=$(basename "$d"); [ -f "$d/patch.diff" ] || continue
   echo "== $name" >&2
   tools/seedtest.sh "$d/patch.diff" "$tier" $ids 2>/dev/null | while read -r id rc rest; do echo "$name $id $rc $rest" >> $out; done
 done
-python3 - "$out" "$tier" <<'PY'
+python3 - "$out" "$tier" "$pat" <<'PY'
 import sys,json,collections
 rows=[l.rstrip('\n').split(' ',3) for l in open(sys.argv[1]) if l.strip()]
 tier=sys.argv[2]
 m=collections.OrderedDict()
+import os
+if len(sys.argv)>3 and sys.argv[3]!='*' and os.path.exists('seeded/matrix.json'):
+    m=collections.OrderedDict(json.load(open('seeded/matrix.json'))["matrix"])
 for r in rows:
     if len(r)<3 or not r[2].startswith('rc='): continue
     name,cid,rc=r[0],r[1],int(r[2][3:])
     detail=r[3] if len(r)>3 else ''
     m.setdefault(name,{})[cid]={"rc":rc,"first_violation":detail.split('|')[0].replace('violated: ','').strip()[:220]}
+m=collections.OrderedDict(sorted(m.items()))
 json.dump({"tier":tier,"matrix":m},open('seeded/matrix.json','w'),indent=1)
 checks=sorted({c for v in m.values() for c in v})
 lines=["# Seeded changes x checks ("+tier+" tier)","","`X` = the check reports a violation with the change applied to /repo; `.` = silent; `?` = inconclusive (exit 2).","Each row is an independently written change (see `<seed>/meta.json`); the target property is the seed's name.","","| seed | "+" | ".join(checks)+" | caught by target |","|---|"+"|".join(["---"]*len(checks))+"|---|"]
-for name,v in m.items():
+for name,v in sorted(m.items()):
     target=name[:3]
     cells=[("X" if v.get(c,{}).get("rc")==1 else ("?" if v.get(c,{}).get("rc")==2 else ".")) for c in checks]
     lines.append(f"| {name} | "+" | ".join(cells)+f" | {'yes' if v.get(target,{}).get('rc')==1 else 'NO'} |")
